@@ -78,3 +78,19 @@ func headStr(s string, n int) string {
 	}
 	return s
 }
+
+// spinWitness looks, in the goroutine dump of a job that ran into its time limit, for a goroutine that is
+// still executing (running or runnable, not waiting for anything) inside a function of the repository: that
+// operation does not return.
+func spinWitness(dump string) (string, string, bool) {
+	for _, g := range strings.Split(dump, "\n\n") {
+		head := firstLine(strings.TrimSpace(g))
+		if !strings.HasPrefix(head, "goroutine ") || !(strings.Contains(head, "[running") || strings.Contains(head, "[runnable")) {
+			continue
+		}
+		if strings.Contains(g, "glowlabs-org/gca-backend/") {
+			return panicSite(g), g, true
+		}
+	}
+	return "", "", false
+}
